@@ -403,6 +403,12 @@ func (p *proxyConn) writeErrorResponse(req *http.Request, err error) error {
 	res := maybeConnectErrorResponse(err)
 	if res == nil {
 		res = p.errorResponse(req, err)
+	} else if res.Request != req {
+		// The response was built for the CONNECT request the transport sent to
+		// the upstream proxy, answer the request of our client with it.
+		res.Request = req
+		res.Proto, res.ProtoMajor, res.ProtoMinor = req.Proto, req.ProtoMajor, req.ProtoMinor
+		res.Close = req.Close
 	}
 	// The challenge of a 407 is addressed to our client, it must survive
 	// the removal of hop-by-hop headers by the response modifiers.
